@@ -448,7 +448,13 @@ def run(ctx):
             if T is None:
                 gen_skipped["left-model-zone"] = gen_skipped.get("left-model-zone", 0) + 1
                 continue
-            cases.append(Case(i, "p%05d" % i, p2.files(), T, block_order(p2), list(intent["removed"]), intent, frozenset(prog.tags), p2))
+            try:
+                files = p2.files()
+            except (TypeError, ValueError):
+                # the generator left a hole (None) in a branch the model never executes: not a printable program
+                gen_skipped["generator-unprintable"] = gen_skipped.get("generator-unprintable", 0) + 1
+                continue
+            cases.append(Case(i, "p%05d" % i, files, T, block_order(p2), list(intent["removed"]), intent, frozenset(prog.tags), p2))
         multi_cases = []
         for j, (i, prog, exp) in enumerate(mbatch):
             r = ctx.rng("perturb-multi", i)
@@ -468,7 +474,12 @@ def run(ctx):
             T = truth(p2)
             if T is None:
                 continue
-            c = Case(i, "m%05d" % i, p2.files(), T, block_order(p2), list(intent["removed"]), intent, frozenset(prog.tags), p2)
+            try:
+                files = p2.files()
+            except (TypeError, ValueError):
+                gen_skipped["generator-unprintable"] = gen_skipped.get("generator-unprintable", 0) + 1
+                continue
+            c = Case(i, "m%05d" % i, files, T, block_order(p2), list(intent["removed"]), intent, frozenset(prog.tags), p2)
             c.kind = kind
             multi_cases.append(c)
         # the hand-written witness and its controls
